@@ -29,12 +29,14 @@ func TestC03(t *testing.T) {
 		if restored {
 			nw = 0 // writers are created after the restore
 		}
-		c := newCW(f, kv, false, nw)
+		// user-managed memory in a third of the cases: items then start out as whatever the allocator hands out
+		mm := !restored && rapid.IntRange(0, 2).Draw(t, "mm") == 0
+		c := newCW(f, kv, mm, nw)
 		defer c.teardown()
 		nkeys := rapid.IntRange(2, 3).Draw(t, "nkeys")
 		keys := []string{"a", "b", "c"}[:nkeys]
 		rounds := rapid.IntRange(1, 3).Draw(t, "rounds")
-		f.logf("c03 kv=%v threads=%d keys=%v restored=%v", kv, nth, keys, restored)
+		f.logf("c03 kv=%v threads=%d keys=%v restored=%v mm=%v", kv, nth, keys, restored, mm)
 		if restored {
 			var items [][]byte
 			for _, k := range append([]string{"0", "z"}, keys...) {
